@@ -22,6 +22,9 @@ use hyper::Uri;
 use mime::Mime;
 use tracing::debug;
 
+#[cfg(feature = "verif-hooks")]
+use crate::verif_hooks::time;
+
 fn extract_amz_content_sha256<'a>(hs: &'_ OrderedHeaders<'a>) -> S3Result<Option<AmzContentSha256<'a>>> {
     let Some(val) = hs.get_unique(crate::header::X_AMZ_CONTENT_SHA256) else { return Ok(None) };
     match AmzContentSha256::parse(val) {
